@@ -45,7 +45,7 @@ Definition valid_ty (t:N) : Prop := t = 0 \/ t = 1 \/ t = 2 \/ t = 8 \/ t = 9 \/
 Record mok (c:wcfg) (m:mwr) : Prop := {
   mo_err : m_err m = None;
   mo_ty : valid_ty (m_ftype m);
-  mo_buf : blen (m_buf m) <= cap c;
+  mo_buf : blen (m_buf m) <= N.max 1 (cap c);   (* cap c = 0 (never built by newConn): ReadFrom still stores its lookahead byte *)
   mo_comp : m_compress m = true -> is_data_ty (m_ftype m) = true /\ w_negotiated c = true
 }.
 
